@@ -33,6 +33,22 @@ OTHER_PRIMITIVES = ("__init__", "read_line", "construct", "extract", "close",
 def _fn(world, cq, name):
     r = world.method(cq, name)
     fn = r[2]
+    if r[0].mod in (HID, SER) and any(
+            isinstance(n, ast.Attribute) and n.attr == "get" and isinstance(
+                n.value, ast.Attribute) and isinstance(
+                    n.value.value, ast.Name) and n.value.value.id in (
+                        "self", "cls") for n in ast.walk(fn)):
+        # handlers picked from a class-level table: the if-chain first, so
+        # that the handlers it names are inlined below
+        from ..unroll import expand_table_lookups as _etl, \
+            class_table_resolver as _ctr
+        from ..inline import acopy as _ac
+        fx_ = _ac(fn)
+        rt_, nn_ = _ctr(world, world.cls(cq), r[0].mod)
+        if _etl(fx_, rt_, nn_):
+            ast.fix_missing_locations(fx_)
+            r = (r[0], r[1], fx_)
+            fn = fx_
     if r[0].mod in (HID, SER):
         from ..drv import expand_method
         # serial.py: full alias propagation (guards such as
